@@ -8,7 +8,7 @@ from ..astutil import (call_name, calls_in, walk_no_nested, params_of, kw,
                        is_const, opt_read, expand_locals, bind_args)
 from ..cfg import cfg_of, expr_owner_node, facts_at, enumerate_paths
 from ..loader import Program, AnalysisError, unparse
-from ..pathutil import node_calls
+from ..pathutil import node_calls, describe_path
 from ..report import Check
 
 PROP = 'C10'
@@ -187,25 +187,47 @@ def rule_nullness(chk, prog):
     never the right operand of ``in``."""
     m = prog.mod('checker')
     n = 0
-    for fname in ('do_golden_runs', ):
-        f = m.func(fname)
+
+    def is_stream(t):
+        return t.startswith('__GOLDEN') and (t.endswith('.out')
+                                             or t.endswith('.err'))
+
+    g = m.func('do_golden_runs')
+    scopes = [(g, 'do_golden_runs', None)]
+    # helpers of this module that receive a golden stream as an argument
+    for hc in calls_in(g):
+        hn = call_name(hc)
+        if hn in m.funcs and hn != 'execute':
+            hps = params_of(m.funcs[hn])
+            for pname, a in zip(hps, hc.args):
+                if is_stream(unparse(a)):
+                    scopes.append((m.funcs[hn], hn, (pname, unparse(a))))
+    seen = set()
+    for (f, fname, par) in scopes:
         for c in ast.walk(f):
             if isinstance(c, ast.Compare) and isinstance(
                     c.ops[0], (ast.In, ast.NotIn)):
                 r = unparse(c.comparators[0])
-                if r.startswith('__GOLDEN') and (r.endswith('.out')
-                                                 or r.endswith('.err')):
-                    n += 1
-                    facts = facts_at(f, c)
-                    ok = (f'{r} is None', False) in facts or (
-                        f'{r} is not None', True) in facts
-                    chk.check('C10.R3', f'checker.{fname}', c, ok,
-                              f'"{unparse(c)}" is evaluated although {r} is '
-                              'None when the golden run itself expired '
-                              '(--timeout below the command\'s run time): '
-                              'TypeError traceback in the main process '
-                              'instead of the one-line diagnostic',
-                              loc=m.loc(c), nontrivial=True)
+                if par is None and not is_stream(r):
+                    continue
+                if par is not None and r != par[0]:
+                    continue
+                if (id(c), par) in seen:
+                    continue
+                seen.add((id(c), par))
+                n += 1
+                facts = facts_at(f, c)
+                ok = (f'{r} is None', False) in facts or (
+                    f'{r} is not None', True) in facts
+                shown = r if par is None else f'{r} (= {par[1]})'
+                chk.check('C10.R3', f'checker.{fname}',
+                          f'{unparse(c)} [{shown}]', ok,
+                          f'"{unparse(c)}" is evaluated although {shown} is '
+                          'None when the golden run itself expired '
+                          '(--timeout below the command\'s run time): '
+                          'TypeError traceback in the main process '
+                          'instead of the one-line diagnostic',
+                          loc=m.loc(c), nontrivial=True)
     chk.floor('C10.R3', 'match tests against golden streams', n, 2)
 
 
@@ -222,116 +244,197 @@ def rule_r4(chk, prog):
         'Popen')]
     cfg = cfg_of(f)
     tparam = params_of(f)[2]
-    for c in popens:
-        pre = kw(c, 'preexec_fn')
-        ok = False
+
+    def is_limit_lambda(e):
+        return isinstance(e, ast.Lambda) and isinstance(
+            e.body, ast.Call) and call_name(
+                e.body) == 'limit_resources' and e.body.args and unparse(
+                    e.body.args[0]) == tparam
+
+    def waits(n):
+        return any(isinstance(c.func, ast.Attribute) and c.func.attr in (
+            'communicate', 'wait') for c in node_calls(n))
+
+    # every path from the entry to the wait: the child on it is limited,
+    # either inside the child (preexec_fn) or from the parent (prlimit with
+    # the child's pid) before the wait
+    paths = enumerate_paths(cfg, cfg.entry, waits, correlate=True)
+    nspawn = 0
+    for p in paths:
+        if p.end in (cfg.exit, cfg.raise_exit):
+            continue
+        spawn = None
         how = ''
-        if pre is not None and isinstance(pre, ast.Lambda) and isinstance(
-                pre.body, ast.Call) and call_name(
-                    pre.body) == 'limit_resources' and unparse(
-                        pre.body.args[0]) == tparam:
-            ok = True
-            how = 'preexec_fn'
-        else:
-            # post-spawn: limit_resources(timeout, proc.pid) dominated by the
-            # spawn, before the wait
-            st = c
-            while not isinstance(st, ast.stmt):
-                st = getattr(st, '_parent', None)
-            if isinstance(st, ast.Assign):
-                pv = unparse(st.targets[0])
-                for c2 in calls_in(f):
-                    if call_name(c2) == 'limit_resources' and len(
-                            c2.args) == 2 and unparse(
-                                c2.args[0]) == tparam and unparse(
-                                    c2.args[1]) == f'{pv}.pid':
-                        # same branch
-                        if facts_at(f, c2) == facts_at(f, c):
-                            ok = True
-                            how = 'prlimit after spawn'
-        chk.check('C10.R4', where, c, ok,
-                  'this spawn path does not apply limit_resources(timeout) '
-                  'to the child: CPU-time and memory limits are not in '
-                  'force', loc=m.loc(c), nontrivial=True, argument=how)
+        kwdicts = {}  # name -> has a limiting preexec_fn on this path
+        for n in p.nodes[:-1]:
+            a = n.ast
+            if n.kind == 'stmt' and isinstance(a, ast.Assign) and len(
+                    a.targets) == 1:
+                t = a.targets[0]
+                if isinstance(t, ast.Name) and isinstance(a.value, ast.Dict):
+                    kwdicts[t.id] = any(
+                        isinstance(k, ast.Constant)
+                        and k.value == 'preexec_fn' and is_limit_lambda(v)
+                        for k, v in zip(a.value.keys, a.value.values))
+                elif isinstance(t, ast.Name) and isinstance(
+                        a.value, ast.Call) and call_name(
+                            a.value) == 'dict':
+                    kwdicts[t.id] = any(
+                        k.arg == 'preexec_fn' and is_limit_lambda(k.value)
+                        for k in a.value.keywords)
+                elif isinstance(t, ast.Subscript) and isinstance(
+                        t.value, ast.Name) and isinstance(
+                            t.slice, ast.Constant) and \
+                        t.slice.value == 'preexec_fn':
+                    kwdicts[t.value.id] = is_limit_lambda(a.value)
+            for c in node_calls(n):
+                if (call_name(c) or '').endswith('Popen'):
+                    spawn = (n, c)
+                    pre = kw(c, 'preexec_fn')
+                    if pre is not None and is_limit_lambda(pre):
+                        how = 'preexec_fn'
+                    for k in c.keywords:
+                        if k.arg is None and isinstance(
+                                k.value, ast.Name) and kwdicts.get(
+                                    k.value.id):
+                            how = 'preexec_fn via **' + k.value.id
+                elif spawn and call_name(c) == 'limit_resources' and len(
+                        c.args) == 2 and unparse(c.args[0]) == tparam:
+                    st = spawn[1]
+                    while not isinstance(st, ast.stmt):
+                        st = getattr(st, '_parent', None)
+                    pv = unparse(st.targets[0]) if isinstance(
+                        st, ast.Assign) else None
+                    if pv and unparse(c.args[1]) == f'{pv}.pid':
+                        how = how or 'prlimit after spawn'
+        if spawn is None:
+            continue
+        nspawn += 1
+        chk.check('C10.R4', where,
+                  f'{describe_path(p)}: child limited', bool(how),
+                  'on this path the command is spawned and waited for '
+                  'without limit_resources(timeout) having been applied to '
+                  'the child (neither as preexec_fn nor through prlimit '
+                  'with its pid): CPU-time and memory limits are not in '
+                  'force', loc=m.loc(spawn[1]), nontrivial=True,
+                  argument=how)
+    chk.floor('C10.R4', 'spawn-to-wait paths', nspawn, 2)
     lr = m.func('limit_resources')
     lw = 'checker.limit_resources'
-    calls = [c for c in calls_in(lr) if call_name(c) == 'setlimit']
-    seen = {}
-    for c in calls:
-        res = unparse(c.args[0])
-        seen[res] = c
-    ok = set(seen) == {'resource.RLIMIT_AS', 'resource.RLIMIT_CPU'}
-    chk.check('C10.R4', lw, f'limits set: {sorted(seen)}', ok,
-              f'limit_resources sets {sorted(seen)}; documented: the address '
-              'space (RLIMIT_AS, --memout) and CPU time (RLIMIT_CPU) - e.g. '
-              'RLIMIT_DATA does not count shared/file-backed mappings, so a '
-              'command can allocate far beyond --memout and finish normally',
-              loc=m.loc(lr), nontrivial=True)
-    if 'resource.RLIMIT_AS' in seen:
-        c = seen['resource.RLIMIT_AS']
-        facts = facts_at(lr, c)
-        v = unparse(c.args[1]).replace(' ', '')
-        ok = ('options.args().memout', True) in facts and v.startswith(
-            '(options.args().memout*1024*1024,')
-        chk.check('C10.R4', lw, c, ok, 'the memory limit is not memout MiB '
-                  'under the memout test', loc=m.loc(c), nontrivial=True)
-    if 'resource.RLIMIT_CPU' in seen:
-        c = seen['resource.RLIMIT_CPU']
-        facts = facts_at(lr, c)
-        tp = params_of(lr)[0]
-        under = any(isinstance(a, ast.If) and unparse(a.test) == tp
-                    and any(c in list(ast.walk(b)) for b in a.body)
-                    for a in _parents(c, lr))
-        # the limit value: (X, X) with X = math.ceil(<timeout parameter>)
-        lim = c.args[1]
-        okv = isinstance(lim, ast.Tuple) and len(lim.elts) == 2 and unparse(
-            lim.elts[0]) == unparse(lim.elts[1])
-        if okv:
-            x = lim.elts[0]
-            src = x
-            if isinstance(x, ast.Name):
-                ds = [st.value for st in walk_no_nested(lr)
-                      if isinstance(st, ast.Assign)
-                      and unparse(st.targets[0]) == x.id]
-                src = ds[-1] if ds else x
-            okv = unparse(src) == f'math.ceil({tp})'
-        ok = ((tp, True) in facts or under) and okv
-        chk.check('C10.R4', lw, c, ok, 'the CPU limit is not ceil(timeout) '
-                  'under the timeout test', loc=m.loc(c), nontrivial=True)
-    # setlimit targets the child: prlimit(pid, ...) when a pid is given,
-    # setrlimit(...) (inside the child, via preexec_fn) otherwise
-    bodies = []
+    lps = params_of(lr)
+    tp = lps[0]
+    pidp = lps[1] if len(lps) > 1 else 'pid'
+    from ..astutil import expand_locals, subst
+
+    def raw_limit_calls(scope):
+        return [c for c in ast.walk(scope) if isinstance(c, ast.Call)
+                and call_name(c) in ('resource.prlimit',
+                                     'resource.setrlimit')]
+
+    # appliers: local callables (lambda bound to a name / nested def) that
+    # forward to resource.prlimit / resource.setrlimit
+    appliers = {}  # name -> list of (params, vararg, body calls+facts, facts)
     for st in ast.walk(lr):
-        if isinstance(st, ast.Assign) and unparse(
-                st.targets[0]) == 'setlimit' and isinstance(st.value,
-                                                            ast.Lambda):
-            bodies.append((st, st.value.body, [a.arg for a in [
-                st.value.args.vararg] if a]))
-        if isinstance(st, ast.FunctionDef) and st.name == 'setlimit':
-            rets = [r.value for r in ast.walk(st)
-                    if isinstance(r, ast.Return) and r.value is not None]
-            exprs = rets or [x.value for x in st.body
-                             if isinstance(x, ast.Expr)]
-            if len(exprs) == 1:
-                bodies.append((st, exprs[0], [st.args.vararg.arg]
-                               if st.args.vararg else []))
-    pidp = params_of(lr)[1] if len(params_of(lr)) > 1 else 'pid'
-    shapes = set()
-    for (st, body, va) in bodies:
-        v = va[0] if va else None
-        t = unparse(body).replace(' ', '')
-        facts = facts_at(lr, st if isinstance(st, ast.stmt) else st)
-        if t == f'resource.prlimit({pidp},*{v})':
-            shapes.add('prlimit' if (pidp, True) in facts_at(lr, body)
-                       or (pidp, True) in _stmt_facts(lr, st) else 'prlimit?')
-        elif t == f'resource.setrlimit(*{v})':
-            shapes.add('setrlimit')
+        if isinstance(st, ast.Assign) and len(st.targets) == 1 and isinstance(
+                st.targets[0], ast.Name) and isinstance(st.value,
+                                                        ast.Lambda):
+            lam = st.value
+            outer = _stmt_facts(lr, st)
+            cs = [(c, set()) for c in raw_limit_calls(lam.body)]
+            appliers.setdefault(st.targets[0].id, []).append(
+                ([a.arg for a in lam.args.args],
+                 lam.args.vararg.arg if lam.args.vararg else None, cs,
+                 outer))
+        if isinstance(st, ast.FunctionDef) and st is not lr:
+            outer = _stmt_facts(lr, st)
+            cs = [(c, set(facts_at(st, c))) for c in raw_limit_calls(st)]
+            appliers.setdefault(st.name, []).append(
+                ([a.arg for a in st.args.args],
+                 st.args.vararg.arg if st.args.vararg else None, cs, outer))
+    effective = []  # (kind, args(list of ast), facts)
+    in_appliers = {id(c) for v in appliers.values() for (_, _, cs, _) in v
+                   for (c, _) in cs}
+    for c in raw_limit_calls(lr):
+        if id(c) not in in_appliers:
+            effective.append((call_name(c), list(c.args),
+                              set(facts_at(lr, c)), c))
+    for c in calls_in(lr):
+        nm = call_name(c)
+        if nm not in appliers:
+            continue
+        site = set(facts_at(lr, c))
+        for (ps, va, cs, outer) in appliers[nm]:
+            env = {}
+            for k_, a in zip(ps, c.args):
+                env[k_] = a
+            rest = list(c.args[len(ps):])
+            for (rc, inner) in cs:
+                args = []
+                for a in rc.args:
+                    if isinstance(a, ast.Starred) and isinstance(
+                            a.value, ast.Name) and a.value.id == va:
+                        args.extend(rest)
+                    else:
+                        args.append(subst(a, env))
+                effective.append((call_name(rc), args,
+                                  site | set(outer) | set(inner), c))
+    chk.floor('C10.R4', 'effective setrlimit/prlimit applications',
+              len(effective), 4)
+    seen = {}
+    for (kind, args, facts, c) in effective:
+        want_pid = kind == 'resource.prlimit'
+        if want_pid:
+            okp = bool(args) and unparse(args[0]) == pidp and (
+                pidp, True) in facts
+            args = args[1:]
         else:
-            shapes.add('other:' + t)
-    ok = shapes == {'prlimit', 'setrlimit'}
-    chk.check('C10.R4', lw, 'limit applied to the child (prlimit(pid) / '
-              'setrlimit in the child)', ok, f'setlimit is {sorted(shapes)}',
-              loc=m.loc(lr), nontrivial=True)
+            okp = (pidp, False) in facts
+        res_t = unparse(args[0]) if args else '?'
+        seen.setdefault(res_t, set()).add(kind)
+        chk.check('C10.R4', lw, f'{kind.split(".")[1]}({res_t}) targets '
+                  'the child', okp,
+                  f'{kind} for {res_t} is not applied '
+                  + ('to the given pid under "pid is set"' if want_pid else
+                     'in the child itself (no pid) under "pid not set"'),
+                  loc=m.loc(c), nontrivial=True)
+        lim = expand_locals(lr, args[1]) if len(args) > 1 else None
+        if res_t == 'resource.RLIMIT_AS':
+            v = unparse(lim).replace(' ', '') if lim is not None else ''
+            ok = ('options.args().memout', True) in facts and v.startswith(
+                '(options.args().memout*1024*1024,')
+            chk.check('C10.R4', lw, f'{kind.split(".")[1]}: {res_t} = '
+                      f'{v[:50]}', ok, 'the memory limit is not memout MiB '
+                      'under the memout test', loc=m.loc(c), nontrivial=True)
+        elif res_t == 'resource.RLIMIT_CPU':
+            okv = isinstance(lim, ast.Tuple) and len(lim.elts) == 2 and \
+                unparse(lim.elts[0]) == unparse(lim.elts[1])
+            if okv:
+                x = lim.elts[0]
+                src = x
+                if isinstance(x, ast.Name):
+                    ds = [st.value for st in walk_no_nested(lr)
+                          if isinstance(st, ast.Assign)
+                          and unparse(st.targets[0]) == x.id]
+                    src = ds[-1] if ds else x
+                okv = unparse(src) == f'math.ceil({tp})'
+            under = any(isinstance(a, ast.If) and unparse(a.test) == tp
+                        and any(c in list(ast.walk(b)) for b in a.body)
+                        for a in _parents(c, lr))
+            ok = ((tp, True) in facts or under) and okv
+            chk.check('C10.R4', lw, f'{kind.split(".")[1]}: {res_t}', ok,
+                      'the CPU limit is not ceil(timeout) under the timeout '
+                      'test', loc=m.loc(c), nontrivial=True)
+    ok = set(seen) == {'resource.RLIMIT_AS', 'resource.RLIMIT_CPU'} and all(
+        v == {'resource.prlimit', 'resource.setrlimit'}
+        for v in seen.values())
+    chk.check('C10.R4', lw, f'limits set: {sorted(seen)}', ok,
+              f'limit_resources sets {sorted(seen)} '
+              f'({ {k: sorted(v) for k, v in seen.items()} }); documented: '
+              'the address space (RLIMIT_AS, --memout) and CPU time '
+              '(RLIMIT_CPU), each from the parent (prlimit) and in the '
+              'child (setrlimit) - e.g. RLIMIT_DATA does not count shared/'
+              'file-backed mappings, so a command can allocate far beyond '
+              '--memout and finish normally', loc=m.loc(lr), nontrivial=True)
     # defaults
     g = m.func('do_golden_runs')
     gw = 'checker.do_golden_runs'
@@ -436,17 +539,47 @@ def rule_r5(chk, prog):
         return None
 
     from ..shape import parse_expr
+    from ..astutil import subst
+
+    def nonzero_exit(c):
+        if isinstance(c, ast.Call):
+            code = c.args[0] if c.args else None
+            return code is not None and is_const(code) and \
+                code.value not in (0, None, False)
+        return True
+
+    # exit sites with the facts that hold there; an exit inside a helper of
+    # this module is taken with the helper's facts instantiated at each of
+    # its call sites in do_golden_runs (one level)
+    sites = []
+    for (c, anchor) in [(c, c) for c in exits] + [(r, r.exc)
+                                                  for r in raises]:
+        if nonzero_exit(c):
+            sites.append(set(facts_at(g, anchor)))
+    for hc in calls_in(g):
+        hn = call_name(hc)
+        if hn not in m.funcs or hn == 'execute' or hc.keywords:
+            continue
+        h = m.funcs[hn]
+        hps = params_of(h)
+        if len(hc.args) > len(hps):
+            continue
+        env = dict(zip(hps, hc.args))
+        hex_ = [(x, x) for x in calls_in(h) if call_name(x) == 'sys.exit'
+                and nonzero_exit(x)] + [
+                    (r, r.exc) for r in ast.walk(h)
+                    if isinstance(r, ast.Raise) and r.exc is not None]
+        for (x, anchor) in hex_:
+            fs = set(facts_at(g, hc))
+            for (t, pol) in facts_at(h, anchor):
+                e = parse_expr(t)
+                if e is None:
+                    continue
+                fs.add((unparse(subst(e, env)), pol))
+            sites.append(fs)
     for opt, stream in want.items():
         ok = False
-        for site in [(c, c) for c in exits] + [(r, r.exc) for r in raises]:
-            c, anchor = site
-            if isinstance(c, ast.Call):
-                code = c.args[0] if c.args else None
-                nonzero = code is not None and is_const(code) and \
-                    code.value not in (0, None, False)
-                if not nonzero:
-                    continue
-            facts = facts_at(g, anchor)
+        for facts in sites:
             if (f'options.args().{opt}', True) not in facts:
                 continue
             # the exit must be reached whenever the stream is missing or
